@@ -95,16 +95,23 @@ Definition meta0 (m : option N) : N := match m with Some n => n | None => 0 end.
 Definition set_last (n : N) (sd : side) : side :=
   if vol sd <? n then {| vol := n; meta := Some n; acc := acc sd; calls := calls sd |} else sd.
 
-(* pending_base.go:95-112 init on a fresh pendingBase (lastHeight = 0): CompareAndSwap(0, lsh) *)
-Definition reinit (sd : side) : side :=
-  {| vol := meta0 (meta sd); meta := meta sd; acc := acc sd; calls := calls sd |}.
+(* the watermark a fresh Manager starts from: pending_base.go:95-112 init on a fresh pendingBase
+   (lastHeight = 0): CompareAndSwap(0, lsh) when the recorded lsh is not 0; then block/manager.go:354-361
+   (the repair of F8): when genesis.InitialHeight > 1, CompareAndSwap(0, InitialHeight - 1) — in memory only,
+   nothing is persisted until the first successful submission. *)
+Definition base (init : N) : N := if 1 <? init then init - 1 else 0.
+Definition resume (init : N) (m : option N) : N := if meta0 m =? 0 then base init else meta0 m.
+
+Definition reinit (init : N) (sd : side) : side :=
+  {| vol := resume init (meta sd); meta := meta sd; acc := acc sd; calls := calls sd |}.
 
 Fixpoint seqN (a : N) (len : nat) : list N :=
   match len with O => [] | S l => a :: seqN (a + 1) l end.
 
 (* pending_base.go:42-63 getPending: the heights (v, height], each fetched from the block store; a block
    exists in the store iff its height is >= the initial height (block/manager.go:235 saves the genesis block
-   AT the initial height; nothing is ever stored below it).  None = the error return. *)
+   AT the initial height; nothing is ever stored below it).  None = the error return (before the repair of
+   F8 the watermark started at 0 and this was the permanent outcome for initial heights above 1). *)
 Definition pending_range (init height v : N) : option (list N) :=
   if v =? height then Some []
   else if height <? v then None
@@ -212,8 +219,8 @@ Definition set_side (k : kind) (s : state) (sd : side) : state :=
   | KData => {| s_init := s_init s; s_chain := s_chain s; s_h := s_h s; s_d := sd |}
   end.
 
-Definition empty_side : side := {| vol := 0; meta := None; acc := []; calls := [] |}.
-Definition boot (init : N) : state := {| s_init := init; s_chain := []; s_h := empty_side; s_d := empty_side |}.
+Definition boot_side (init : N) : side := {| vol := resume init None; meta := None; acc := []; calls := [] |}.
+Definition boot (init : N) : state := {| s_init := init; s_chain := []; s_h := boot_side init; s_d := boot_side init |}.
 
 Inductive item :=
 | IPublish (nonempty : bool)              (* a block is committed (publishBlockInternal) *)
@@ -227,7 +234,7 @@ Definition step (c : cfg) (s : state) (i : item) : state * (result * N) :=
   | ITick k sc => let '(sd, _, r, el) := tick_side c (rel_of k s) (s_init s) (height s) sc (get_side k s) in
                   (set_side k s sd, (r, el))
   | ILoop k sc => (set_side k s (loop_side c (rel_of k s) (s_init s) (height s) (S (length sc)) sc (get_side k s)), (RIdle, 0))
-  | IRestart => ({| s_init := s_init s; s_chain := s_chain s; s_h := reinit (s_h s); s_d := reinit (s_d s) |}, (RIdle, 0))
+  | IRestart => ({| s_init := s_init s; s_chain := s_chain s; s_h := reinit (s_init s) (s_h s); s_d := reinit (s_init s) (s_d s) |}, (RIdle, 0))
   end.
 
 Definition run_from (c : cfg) (s : state) (h : list item) : state := fold_left (fun s i => fst (step c s i)) h s.
